@@ -41,6 +41,13 @@ def run : List ι → List Op → List (Out ι) × List ι
     let (xs, l'') := run l' os
     (x :: xs, l'')
 
+/-- the ideal sequence by counting: whether an operation yields an item and how many items are left afterwards depend only on
+    the number of items (used by the oracle for arrays too large to enumerate; C08_counting) -/
+def cstep (n : Nat) : Op → Bool × Nat
+  | .next | .nextBack => (decide (0 < n), n - 1)
+  | .nth k | .nthBack k => (decide (k < n), n - (k + 1))
+  | .len => (false, n)
+
 /-- consume from either end along a word (`true` = `next`, `false` = `next_back`): the items yielded, in order, and what is left -/
 def ends : List ι → List Bool → List ι × List ι
   | l, [] => ([], l)
